@@ -986,7 +986,7 @@ class Driver:
         u0 = init if init is not None else rng.choice(g.inits)
         w.reset(g.nodes[u0]['db'])
         ad = Adapter(w, rng)
-        trace = [{'init': norm_plain(g.nodes[u0]['db']), 'open': g.nodes[u0]['sess'] == 'open'}]
+        trace = [{'init': norm_plain(g.nodes[u0]['db']), 'open': g.nodes[u0]['sess'] == 'open', 'probe': probe}]
         if trace[0]['open']:
             ad.do_Begin({})
         if self.on_behaviour:
